@@ -79,6 +79,43 @@ Proof. vm_compute. reflexivity. Qed.
         ok, log = out["Gen_caches"]
         c.oblige("Gen_caches.clears_cover_caches (every lru_cache'd function of conversions.py is cleared by equate and translate)", ok, log[-500:])
         c.cov["cached_functions"] = cached
+        # the shape of a declaration, line by line (with _forget_cached_conversions inlined): which lines store a ratio / an offset,
+        # which forget the memoised paths and which the memoised plans -- and which of the two memoised functions reads the other
+        funcs = {fn.name: fn for fn in conv.body if isinstance(fn, ast.FunctionDef)}
+        def dlines(fname, depth=0):
+            out = []
+            for st in funcs[fname].body:
+                src_ = ast.unparse(st)
+                if isinstance(st, ast.Expr) and isinstance(st.value, ast.Constant): continue          # docstring
+                if isinstance(st, ast.Assign) and len(st.targets) == 1 and isinstance(st.targets[0], ast.Subscript) and ast.unparse(st.targets[0]).split("[")[0] in ("_ratios", "_offsets"):
+                    out.append("DStore")
+                elif isinstance(st, ast.Expr) and isinstance(st.value, ast.Call) and ast.unparse(st.value) == "_find_path.cache_clear()": out.append("DForgetPath")
+                elif isinstance(st, ast.Expr) and isinstance(st.value, ast.Call) and ast.unparse(st.value) == "_plan_conversion.cache_clear()": out.append("DForgetPlan")
+                elif isinstance(st, ast.Expr) and isinstance(st.value, ast.Call) and isinstance(st.value.func, ast.Name) and st.value.func.id in funcs and not st.value.args and depth < 3 \
+                        and any(t in ast.unparse(funcs[st.value.func.id]) for t in ("cache_clear", "_ratios[", "_offsets[")):
+                    out += dlines(st.value.func.id, depth + 1)
+                elif any(t in src_ for t in ("cache_clear", "_ratios[", "_offsets[", "_ratios.", "_offsets.")) and not (isinstance(st, ast.If) and not any(
+                        isinstance(n, (ast.Assign, ast.AugAssign, ast.Delete)) or (isinstance(n, ast.Call) and "cache_clear" in ast.unparse(n)) for n in ast.walk(st))):
+                    raise ValueError(f"{fname}: a line that touches the tables or the caches in a way the declaration model does not have: {src_[:80]}")
+                else: out.append("DOther")
+            return out
+        eq_l, tr_l = dlines("equate"), dlines("translate")
+        plan_reads_path = "_find_path" in calls.get("_plan_conversion", ()); path_reads_plan = "_plan_conversion" in calls.get("_find_path", ()) or "_plan_conversion" in calls.get("_find_path_recursive", ())
+        txt2 = f"""From Coq Require Import List Bool. Import ListNotations.
+From Measured Require Import Model.Memo2.
+Definition equate_lines : list dline := {clist(eq_l)}.
+Definition translate_lines : list dline := {clist(tr_l)}.
+Definition plan_reads_path : bool := {'true' if plan_reads_path else 'false'}.
+Definition path_reads_plan : bool := {'true' if path_reads_plan else 'false'}.
+(* every declaration stores its ratios, then forgets the memoised paths, then the plans built from them (hypothesis of C08_declaration_in_progress) *)
+Lemma declarations_forget_paths_first :
+  stores_then_path_then_plan equate_lines && stores_then_path_then_plan translate_lines && plan_reads_path && negb path_reads_plan = true.
+Proof. vm_compute. reflexivity. Qed.
+"""
+        ok, log = c.run_coq({"Gen_declshape": txt2})["Gen_declshape"]
+        c.oblige("Gen_declshape.declarations_forget_paths_first (equate and translate, line by line: ratios stored, then memoised paths forgotten, then memoised plans; "
+                 "plans are built from paths and not the other way round)", ok, log[-500:])
+        c.cov["declaration_lines"] = {"equate": eq_l, "translate": tr_l}
     except Exception as ex:
         c.oblige("struct_scan of conversions.py (translator)", False, str(ex))
     nh, nops = (60, 28) if c.tier == "quick" else (600, 45)
